@@ -184,6 +184,23 @@ pub fn through_connection(ctx: &Ctx) -> Report {
             let v: Vec<u8> = if rng.bool() { vec![b'a'; big] } else { let mut b = vec![0xffu8; big]; b[0] = 0xd8; b };
             entries[k].attrs.push((format!("jpegPhoto{}", 99), vec![v]));
         }
+        // one case in four has a wide entry: an attribute with hundreds of values (a group's members)
+        // or an entry with more than a hundred attributes
+        let mut wide = 0u64;
+        if rng.chance(1, 4) && !ctx.tiny {
+            let k = rng.usize(count);
+            if rng.bool() {
+                let nv = 96 + rng.usize(400);
+                entries[k].attrs.push(("member".to_string(), (0..nv).map(|j| format!("uid=u{},ou=people,dc=x", j).into_bytes()).collect()));
+                wide = nv as u64;
+            } else {
+                let na = 96 + rng.usize(150);
+                for j in 0..na {
+                    entries[k].attrs.push((format!("wideAttr{}", j), vec![format!("v{}", j).into_bytes()]));
+                }
+                wide = na as u64;
+            }
+        }
         for (k, e) in entries.iter_mut().enumerate() {
             e.dn = format!("cn=e{},dc=x", k);
         }
@@ -199,7 +216,14 @@ pub fn through_connection(ctx: &Ctx) -> Report {
                     if let Ok(m) = w.msg {
                         for e in &ents {
                             let n = ber::seq(vec![ber::integer(m.id), entry_node(e)]);
-                            server.send(&Enc::random(&mut erng).to_vec(&n));
+                            let bytes = Enc::random(&mut erng).to_vec(&n);
+                            // any segmentation of the byte stream: small messages also byte by byte
+                            let mode = match erng.below(4) {
+                                0 => crate::pipe::Chunking::Whole,
+                                1 if bytes.len() < 4096 => crate::pipe::Chunking::Bytewise,
+                                _ => crate::pipe::Chunking::Random,
+                            };
+                            server.send_chunked(&bytes, mode, &mut erng);
                         }
                         server.send(&ber::encode_min(&resp_node(m.id, &Resp::Done(Res::ok("done")), None)));
                     }
@@ -228,7 +252,8 @@ pub fn through_connection(ctx: &Ctx) -> Report {
             Ok(Err(e)) => rep.violation("C15:through-connection:search-failed", format!("{} (largest value {} bytes)", e, entries.iter().flat_map(|e| e.attrs.iter()).flat_map(|a| a.1.iter()).map(|v| v.len()).max().unwrap_or(0)), replay.clone()),
             Err(()) => rep.violation("C15:through-connection:search-hangs", String::new(), replay.clone()),
         }
-        rep.max("largest_value_bytes", entries.iter().flat_map(|e| e.attrs.iter()).flat_map(|a| a.1.iter()).map(|v| v.len()).max().unwrap_or(0) as u64);
+        rep.max("max_values_or_attributes_in_a_wide_entry", wide);
+        rep.max("max_value_bytes", entries.iter().flat_map(|e| e.attrs.iter()).flat_map(|a| a.1.iter()).map(|v| v.len()).max().unwrap_or(0) as u64);
         rep.case(Some(fnv(format!("{:?}", entries.iter().map(|e| (e.dn.clone(), e.attrs.len())).collect::<Vec<_>>()).as_bytes()) ^ i));
     })
 }
